@@ -41,6 +41,9 @@ OpOK(op, t, ln, A, B, S, v) ==
     [] op \in {"sub", "subeq"} -> Vc(t, v, VSub(A, B))
     [] op \in {"mul", "muleq"} -> Vc(t, v, VMul(A, B))
     [] op \in {"div", "diveq"} -> Vc(t, v, VDiv(A, B))
+    [] op = "eqc" -> v = TRUE          \* computed X and Y are the same exact vector (see the catalogue)
+    [] op = "nec" -> v = FALSE
+    [] op \in {"ltc", "gtc"} -> v = FALSE
     [] op = "eq" -> v = (A = B)
     [] op = "ne" -> v = (A # B)
     [] op = "lt" -> v = LexLess(A, B)
@@ -99,7 +102,7 @@ VecCheck(ln) ==
       Checked(t, op) == t # "u" \/ op \in RingOps \/ NN
       all == UNION {{<<t, op>> : op \in DOMAIN ln.r[t]} : t \in tys}
       todo == {x \in all : Checked(x[1], x[2])}
-      mach == (IF tys # TypesOfDen(ln.den) THEN {<<"MACHINERY", "types">>} ELSE {})
+      mach == (IF tys # Range(ln.ty) \/ ~(tys \subseteq TypesOfDen(ln.den)) THEN {<<"MACHINERY", "types">>} ELSE {})
               \cup {<<"MACHINERY", "ops-" \o t>> : t \in {t \in tys : DOMAIN ln.r[t] # Want(t)}}
   IN [bad  |-> mach \cup {x \in todo : ~OpOK(x[2], x[1], ln, A, B, S, ln.r[x[1]][x[2]])},
       chk  |-> Cardinality(todo), skip |-> Cardinality(all) - Cardinality(todo),
